@@ -160,4 +160,29 @@ theorem learn_is_the_epoch_walk (n : Network α) (inputs targets : List (Tensor 
 example : L.chunks 2 [1, 2, 3, 4, 5] = [[1, 2], [3, 4], [5]] := by decide
 example : L.chunks 7 [1, 2, 3] = [[1, 2, 3]] := by decide
 
+/-- **which samples form group `g`**: group `g` (0-based) is exactly the window of samples
+    `g·B, g·B + 1, …` of length `B` (shorter only where the data ends), and there is a group `g` exactly
+    while `g·B < N` — in particular the last group holds the remaining `N − g·B` samples -/
+theorem group_is_window {β : Type} (B : Nat) (hB : 0 < B) (samples : List β) (g : Nat) :
+    (L.chunks B samples)[g]? = if g * B < samples.length then some ((samples.drop (g * B)).take B) else none :=
+  L.chunks_getElem? B hB samples g
+
+/-- sample `g·B + j` (`j < B`) is member `j` of group `g` -/
+theorem sample_in_its_group {β : Type} (B : Nat) (hB : 0 < B) (samples : List β) (g j : Nat) (hj : j < B)
+    (h : g * B + j < samples.length) :
+    ((L.chunks B samples)[g]?).bind (·[j]?) = samples[g * B + j]? := by
+  have hg : g * B < samples.length := by omega
+  rw [group_is_window B hB samples g, if_pos hg]
+  simp only [Option.bind_some, List.getElem?_take, hj, if_true, List.getElem?_drop]
+
+/-- the size of group `g`: `B`, or what is left of the data -/
+theorem group_size {β : Type} (B : Nat) (hB : 0 < B) (samples : List β) (g : Nat) (c : List β)
+    (h : (L.chunks B samples)[g]? = some c) : c.length = min B (samples.length - g * B) := by
+  rw [group_is_window B hB samples g] at h
+  split at h
+  · cases h; simp
+  · cases h
+
+example : ((L.chunks 2 [10, 11, 12, 13, 14])[2]?).bind (·[0]?) = [10, 11, 12, 13, 14][2 * 2 + 0]? := by decide
+
 end C04
